@@ -68,6 +68,21 @@ Definition follow_res_eqb (a : follow_res) (b : fobs_res) : bool :=
   | _, _ => false
   end.
 
+(* the progress callback closes [done] at the first stored round >= targ *)
+Definition fires (targ : Z) (b : beacon) : bool := (targ <=? b_round b) && negb (b_round b =? 0).
+(* number of writes up to and including the first one that closes [done] *)
+Fixpoint fire_idx (targ : Z) (ws : list beacon) : nat :=
+  match ws with
+  | [] => O
+  | b :: t => if fires targ b then 1%nat else S (fire_idx targ t)
+  end.
+Fixpoint is_prefix (a b : list Z) : bool :=
+  match a, b with
+  | [], _ => true
+  | x :: a', y :: b' => (x =? y) && is_prefix a' b'
+  | _, _ => false
+  end.
+
 Definition src : follow_src :=
   mkFsrc err_chan_is_made failed_sync_is_reported retry_branch_continues hash_pinned_before_store.
 
@@ -139,14 +154,35 @@ Definition ok (c : scase) : bool :=
                  chained bk src false hash answers None upTo cur
                  (S (length attempts)) (map (map to_peer) attempts) in
       follow_res_eqb (fw_r o) res &&
-      match progress with
-      | Some p => list_eqb Z.eqb (map b_round (fw_ws o)) p
-      | None => true   (* upTo = 0: the progress stream is rate-limited against the clock *)
-      end &&
-      match fw_db o, dump with
-      | None, None => true
-      | Some b, Some d => dump_eqb (dump_of b) d
-      | _, _ => false
+      match fw_r o with
+      | FwDone =>
+          (* [done] was closed by the progress callback; the Sync still running is cancelled
+             asynchronously: every cut of the attempt's write sequence at or after the write that
+             closed [done] is a behaviour of the code *)
+          let ws := fw_ws o in
+          let targ := if negb (upTo =? 0) && (upTo <? cur) then upTo else cur in
+          let base0 := match info_from_peers answers with
+                       | Some i => raw_put bk [] (i_genesis i)
+                       | None => []
+                       end in
+          let db_at (n : nat) := fold_left (raw_put bk) (map (store_form chained) (firstn n ws)) base0 in
+          match progress, dump with
+          | Some p, Some d =>
+              is_prefix p (map b_round ws) && Nat.leb (fire_idx targ ws) (length p) &&
+              existsb (fun n => dump_eqb (dump_of (db_at n)) d)
+                      (seq (length p) (S (length ws - length p)))
+          | _, _ => false
+          end
+      | _ =>
+          match progress with
+          | Some p => list_eqb Z.eqb (map b_round (fw_ws o)) p
+          | None => true   (* upTo = 0: the progress stream is rate-limited against the clock *)
+          end &&
+          match fw_db o, dump with
+          | None, None => true
+          | Some b, Some d => dump_eqb (dump_of b) d
+          | _, _ => false
+          end
       end
   end.
 
